@@ -351,6 +351,42 @@ def install():
     ig.IdGenerator.__init__ = __init__
     ig.IdGenerator.get_next_id = get_next_id
 
+    # The Pythonic alternative draw path: if the class is (made) iterable, ids pulled through the iterator
+    # are draws too - recorded once, whether or not the iterator goes through get_next_id itself.
+    def _recording_iter(gen, inner):
+        while True:
+            env = ENV
+            before = len(env.rec.log) if env is not None else 0
+            try:
+                v = next(inner)
+            except StopIteration:
+                return
+            env = ENV
+            if env is not None and len(env.rec.log) == before and isinstance(v, str):
+                v = env.rec.draw(gen, v, cur_ctx())
+            yield v
+
+    orig_iter = ig.IdGenerator.__dict__.get("__iter__")
+    orig_nxt = ig.IdGenerator.__dict__.get("__next__")
+    if orig_iter is not None and orig_nxt is None:
+        def __iter__(self):
+            return _recording_iter(self, iter(orig_iter(self)))
+
+        ig.IdGenerator.__iter__ = __iter__
+        info["probes"].append("IdGenerator.__iter__")
+    if orig_nxt is not None:
+        def __next__(self):
+            env = ENV
+            before = len(env.rec.log) if env is not None else 0
+            v = orig_nxt(self)
+            env = ENV
+            if env is not None and len(env.rec.log) == before and isinstance(v, str):
+                v = env.rec.draw(self, v, cur_ctx())
+            return v
+
+        ig.IdGenerator.__next__ = __next__
+        info["probes"].append("IdGenerator.__next__")
+
     ts.os = _OsShim()
     ts.open = _sim_open
     se.open = _sim_open
